@@ -221,6 +221,65 @@ def c01_structural_sparse(kind: int, n: int, k: int, t: T12, m: int, starts: int
                        kd, nn, kk, edges, st, fi, labels=labels, order=order)
 
 
+def _edit_oracle(args, obs):
+    kind, n, k, edges, starts, finals, removed, word = args
+    after = [e for e in edges if e != removed]
+    ref = enc.ref_enfa(n, after, starts, finals)
+    # the states and the alphabet keep what the removed edge had introduced
+    full = enc.ref_enfa(n, edges, starts, finals)
+    fails = []
+    tags = ["edited_by_remove_transition"]
+    res = obs["accepts"]
+    want = O.accepts(ref, [x for x in word if x != "epsilon"])
+    if res[0] == "exc":
+        fails.append(chx.exc_failure("accepts", res, tags=tags))
+    elif bool(res[1]) != want:
+        fails.append({"kind": "verdict", "op": "accepts", "tags": tags,
+                      "detail": "after remove_transition%r accepts(%r)=%r, reference %r" % (removed, word, res[1], want)})
+    for op in ("to_deterministic", "remove_epsilon_transitions", "minimize", "copy"):
+        r = obs[op]
+        if r[0] == "exc":
+            fails.append(chx.exc_failure(op, r, tags=tags))
+            continue
+        got = O.extract(r[1])
+        eq, wit = O.equivalent(ref, got)
+        if not eq:
+            fails.append({"kind": "language", "op": op, "tags": tags,
+                          "detail": "after remove_transition%r: differs on %r" % (removed, wit)})
+    return bool(after) and bool(starts) and bool(finals), fails, {
+        "edges": edges, "removed": removed, "starts": starts, "finals": finals, "word": word}
+
+
+def c01_edit(bits: B8, starts: int, finals: int, which: int, w: Tuple[int, int], wlen: int) -> bool:
+    """
+    pre: pinned(starts=starts, finals=finals, b0=bits[0], b1=bits[1], b2=bits[2], wlen=wlen)
+    pre: ((0 <= starts) & (starts < 4)) & ((0 <= finals) & (finals < 4)) & ((0 <= which) & (which < 8))
+    pre: enc.word_ranges(w, wlen, 2)
+    post: _
+    """
+    raw = (bits, starts, finals, which, w, wlen)
+    edges = enc.decode_enfa_dense(bits, 2, 1)
+    st = enc.mask_members(starts, 2)
+    fi = enc.mask_members(finals, 2)
+    wi = enc.pick(which, 8)
+    word = enc.decode_word(w, wlen, ["a", "z"])
+    if wi >= len(edges):
+        return chx.assumed_away("c01_edit")
+    removed = edges[wi]
+    chx.enter("c01_edit", raw)
+    fa = enc.build_enfa(EpsilonNFA, 2, edges, st, fi)
+    # the automaton answers queries first, is then edited through the public API, and must answer for what it now is
+    chx.guarded(fa.accepts, word)
+    chx.guarded(fa.to_deterministic)
+    q, sy, t = removed
+    fa.remove_transition(q, "epsilon" if sy == 0 else enc.SYMS[sy - 1], t)
+    obs = {"accepts": chx.guarded(fa.accepts, word)}
+    for op in ("to_deterministic", "remove_epsilon_transitions", "minimize", "copy"):
+        obs[op] = chx.guarded(getattr(fa, op))
+    return chx.judge("C01", "c01_edit", raw, (0, 2, 1, edges, st, fi, removed, word), obs, _edit_oracle,
+                     realize_obs=False)
+
+
 # state labels that look like the library's merged names
 NAME_LABELS = [0, 1, "0", "1", "0;1", "1;0", "TRASH", "0; 1", ""]
 
@@ -312,6 +371,16 @@ CONDS = [
          {"thorough": "3 states, alphabet {a} or {a,b}, 3-4 distinct edges, any masks, 3 label/insertion "
                       "permutations"},
          FUNCS, "automaton has an edge, a start and a final state", tiers=("thorough",)),
+    Cond("C01", c01_edit, lambda tier: (product_pins(starts=[1], finals=[2], b0=[False], b1=[False, True],
+                                                      b2=[False, True], wlen=[2])
+                                         if tier == "quick" else
+                                         product_pins(starts=[1, 2, 3], finals=[1, 2, 3], b0=[False, True],
+                                                      b1=[False, True])),
+         {"quick": "eps-NFA with 2 states over {a}, queried, then one of its transitions (symbolic choice) removed "
+                   "with remove_transition, then accepts(w) for a symbolic word of length 2 (quick; <=2 thorough) and the four "
+                   "transformations, against the reference of the edited automaton",
+          "thorough": "all non-empty masks"},
+         FUNCS + ["FiniteAutomaton.remove_transition"], "edited automaton has an edge, a start and a final state"),
     Cond("C01", c01_names, _shards_names,
          {"quick": "8 three-state eps-NFA shapes over {a} (different merges in the subset construction) x state labels "
                    "from {0,1,'0','1','0;1','1;0','TRASH','0; 1',''} (first two labels from pinned subsets, third any) x "
